@@ -737,6 +737,13 @@ def raw_name_mlsx(b):
     return name or None
 
 
+def raw_has_type_mlsx(b):
+    """independent recogniser: does the facts part of an MLSx line contain a Type fact (fact names are case-insensitive, RFC 3659)"""
+    s = b.decode("utf-8", "replace").rstrip()
+    facts = s.partition(" ")[0]
+    return any(f.partition("=")[0].lower() == "type" and "=" in f for f in facts.split(";"))
+
+
 def has_dot_token(b):
     s = b.decode("utf-8", "replace")
     for tok in s.split():
@@ -776,7 +783,14 @@ def listing_oracle(ys, end, reqs, script, count=lambda k, n: None):
         return [("Client.list() did not finish within 10 s on a finite scripted server", "c19-lister-hang", {})]
     endname = "done" if end == "done" else type(end).__name__
     if end != "done" and not isinstance(end, (ValueError, errors.StatusCodeError)):
-        key = "c19-mlsd-no-type-fact-keyerror" if isinstance(end, KeyError) and end.args == ("type",) else f"c19-lister-class:{endname}"
+        key = f"c19-lister-class:{endname}"
+        if isinstance(end, KeyError) and end.args == ("type",):
+            # F12b only when the directory being listed really contains an MLSD line without a Type fact (raw, case-insensitive
+            # recogniser, independent of parse_mlsx_line); KeyError('type') on a listing whose lines all carry one is a different defect
+            n_req = sum(1 for r in reqs if r.startswith(b"MLSD"))
+            cur = script[n_req - 1] if 0 < n_req <= len(script) else None
+            typeless = cur is not None and not cur[0] and any(not raw_has_type_mlsx(l) for l in split_lf(cur[1]))
+            key = "c19-mlsd-no-type-fact-keyerror" if typeless else "c19-lister-keyerror-on-typed-lines"
         out.append((f"Client.list() raised {endname} for a listing line (documented: ValueError)", key, {}))
     for p, info in ys:
         if not (isinstance(p, pathlib.PurePosixPath) and isinstance(info, dict) and "type" in info):
@@ -1005,6 +1019,15 @@ async def live_server(ctx, payloads):
                 closed_by_server = True
             if closed_by_server:
                 facts["ended_by_server"] += 1
+            if not closed_by_server:
+                # "releases that session's resources": a session the dispatcher has left (no longer in server.connections) must not
+                # keep its control connection open (independent of the model: only the server's own ledger and the socket are used)
+                await asyncio.sleep(0.05)
+                my_port = w.get_extra_info("sockname")[1]
+                registered = any(getattr(cn, "client_port", None) == my_port for cn in list(server.connections.values()))
+                if not registered:
+                    ctx.violation("the dispatcher ended a session (gone from server.connections) but left its control connection open",
+                                  {"key": "c19-server-session-socket-not-closed", **rep})
             if predicted[name, payload] and not closed_by_server:
                 ctx.disagree("server-reaction", rep, "model: parse_command raises on a line of this payload, the dispatcher's catch-all ends the session", "session still open")
             w.close()
@@ -1036,7 +1059,11 @@ async def live_server(ctx, payloads):
         await witness.quit()
     finally:
         witness.close()
-        await server.close()
+        try:
+            await asyncio.wait_for(server.close(), 15)
+        except asyncio.TimeoutError:
+            ctx.violation("Server.close() did not return within 15 s after the hostile sessions (a control connection was never closed)",
+                          {"key": "c19-server-close-hangs"})
         for _ in range(50):
             if not server.connections:
                 break
@@ -1087,7 +1114,12 @@ def correspondence(ctx, scale=1.0):
     x += lister_cases(ctx, int(500 * f))
     loop = asyncio.new_event_loop()
     try:
-        loop.run_until_complete(live_server(ctx, hostile_payloads(ctx.rng, int(25 * f))))
+        pl = hostile_payloads(ctx.rng, int(25 * f))
+        try:
+            loop.run_until_complete(asyncio.wait_for(live_server(ctx, pl), 120 + 3 * len(pl)))
+        except asyncio.TimeoutError:
+            ctx.violation("the hostile-session run against the real server did not finish within its time budget (server or witness hangs)",
+                          {"key": "c19-live-server-hang"})
     finally:
         loop.close()
     ok, out = core.vm_crosscheck(EXTRACT, x[:100])
